@@ -41,7 +41,7 @@ def Err.name : Err → String
 inductive Op where
   | sstore | tstore | log (n : Fin 5) | selfdestruct
   | call | callcode | delegatecall | staticcall | create | create2 | authcall
-  | stake | unstake | unstakeall
+  | stake | unstake | unstakeall | stakenum
   deriving DecidableEq, Repr, Inhabited
 
 def Op.name : Op → String
@@ -49,7 +49,7 @@ def Op.name : Op → String
   | .selfdestruct => "SELFDESTRUCT" | .call => "CALL" | .callcode => "CALLCODE"
   | .delegatecall => "DELEGATECALL" | .staticcall => "STATICCALL" | .create => "CREATE"
   | .create2 => "CREATE2" | .authcall => "AUTHCALL" | .stake => "STAKE" | .unstake => "UNSTAKE"
-  | .unstakeall => "UNSTAKEALL"
+  | .unstakeall => "UNSTAKEALL" | .stakenum => "STAKENUM"
 
 def findFact (name : String) : List Generated.C12.OpFact → Option Generated.C12.OpFact
   | [] => none
@@ -95,6 +95,7 @@ inductive Frame where
   | stake (amount : Nat) (rest : Frame)
   | unstake (amount : Nat) (rest : Frame)
   | unstakeall (rest : Frame)
+  | stakenum (pointer : Addr) (rest : Frame)
   deriving Repr, Inhabited
 
 /-- The outcome of `RunPrecompiledContract` as the frame tree records it in the (otherwise
@@ -264,12 +265,28 @@ def endingResult (w : World) (clogs : List Log) (tr : List Event) : Ending → R
 def failWith (w : World) (tr : List Event) (e : Err) : Result :=
   { world := w, err := some e, trace := tr }
 
-/-- STAKE family, abstracted to what the property observes: the ledger effect
-    `MinerManagerImpl.AddStake` / `RefundManagerImpl` have on balances. A contract that
-    is a registered miner account moves `amount` out of its own balance (STAKE) or
-    schedules a refund (UNSTAKE*: storage of the refund account, not modelled). -/
+/-- one RPG in wei: STAKE/UNSTAKE amounts are whole RPG (`amount` units = `oneRPG * amount` wei on the stack) -/
+def oneRPG : Nat := 1000000000000000000
+
+/-- `opStake` -> `MinerManagerImpl.AddStake(self, miner, amount)`: only for a contract that is a registered
+    miner account; nothing for amount 0 or a balance below the amount; else the balance goes down and the
+    miner's stake up (`SubBalance`, `UpdateMiner`). The opcode itself never fails (it pushes a flag). -/
 def stakeEffect (env : Env) (self : Addr) (amount : Nat) (w : World) : World :=
-  if env.isMiner self && w.canTransfer self amount then w.subBalance self amount else w
+  if env.isMiner self && amount != 0 && w.canTransfer self (oneRPG * amount) then
+    let w1 := w.subBalance self (oneRPG * amount)
+    { w1 with stake := w1.stake.set self (w1.getStake self + amount) }
+  else w
+
+/-- `opUnStake` -> `RefundManagerImpl.GetRefundStake(height, miner, self, amount)`: refused when the stake is
+    smaller; else the stake goes down (a contract's miner record is never deleted: `RemoveMiner` keeps it
+    with the remaining stake) and a refund to `evm.Origin` is scheduled in the refund account of a later
+    height (not observed here). `amount = none` is UNSTAKEALL. -/
+def unstakeEffect (env : Env) (self : Addr) (amount : Option Nat) (w : World) : World :=
+  if env.isMiner self then
+    match amount with
+    | none => { w with stake := w.stake.set self 0 }
+    | some n => if w.getStake self < n then w else { w with stake := w.stake.set self (w.getStake self - n) }
+  else w
 
 /-- `evm.Call` / `CallCode` / `DelegateCall` / `StaticCall`, with the interpreter run of
     the callee's code passed in as `k depth readOnly self world` and the outcome of a precompile run
@@ -330,7 +347,9 @@ def run (env : Env) (depth : Nat) (ro : Bool) (self : Addr) (w : World) (clogs :
     run env depth ro self (w.addLog self n tag) (clogs ++ [w.newLog self n tag]) tr rest
   | .selfdestruct ben =>
     if roBlocked ro .selfdestruct 0 then failWith w tr .writeProtection else
-    { world := (w.addBalance ben (w.getBalance self)).suicide self, logs := clogs, trace := tr }
+    -- the gas function runs first (refund counter), then opSuicide
+    let w0 := w.selfdestructRefund self
+    { world := (w0.addBalance ben (w0.getBalance self)).suicide self, logs := clogs, trace := tr }
   | .call id kind target value body rest =>
     if roBlocked ro kind.op value then failWith w tr .writeProtection else
     let r := callFrameK env depth ro self kind target value
@@ -353,12 +372,16 @@ def run (env : Env) (depth : Nat) (ro : Bool) (self : Addr) (w : World) (clogs :
   | .stake amount rest =>
     if roBlocked ro .stake 0 then failWith w tr .writeProtection else
     run env depth ro self (stakeEffect env self amount w) clogs tr rest
-  | .unstake _ rest =>
+  | .unstake amount rest =>
     if roBlocked ro .unstake 0 then failWith w tr .writeProtection else
-    run env depth ro self w clogs tr rest
+    run env depth ro self (unstakeEffect env self (some amount) w) clogs tr rest
   | .unstakeall rest =>
     if roBlocked ro .unstakeall 0 then failWith w tr .writeProtection else
     if !env.isMiner self then failWith w tr .noSuchMiner else
+    run env depth ro self (unstakeEffect env self none w) clogs tr rest
+  | .stakenum pointer rest =>
+    if roBlocked ro .stakenum 0 then failWith w tr .writeProtection else
+    if !env.isMiner pointer then failWith w tr .noSuchMiner else
     run env depth ro self w clogs tr rest
 
 /-- `evm.Call` / `CallCode` / `DelegateCall` / `StaticCall` on a callee whose code is `body`. -/
